@@ -5,7 +5,7 @@ back-end), emit the expectation table with the reference interpreter, compile, l
 Nothing is cached across check runs. run_jobs(): run driver processes in parallel, collect the result JSON,
 VIOLATION / HANG lines; a HANG is re-run alone with 4x the limit before it is reported.
 """
-import json, os, subprocess, sys, time, shutil
+import json, os, subprocess, sys, time, shutil, glob
 from concurrent.futures import ThreadPoolExecutor
 import ptgir
 
@@ -15,6 +15,26 @@ RT = os.path.join(VERIF, 'engine', 'rt')
 SCHEDS = ['ap', 'gd', 'ip', 'lfq', 'lhq', 'll', 'llp', 'ltq', 'pbq', 'rnd', 'spq']
 BACKENDS = {'ht': 'dynamic-hash-table', 'ia': 'index-array'}
 NJOBS = int(os.environ.get('VERIF_JOBS', str(os.cpu_count() or 4)))
+
+
+TRAIT_FINDING = {'negstep': 'C01-negative-step-execution-space', 'ia-nonrange-param': 'C01-index-array-non-range-parameter'}
+
+
+def known_ids():
+    p = os.environ.get('VERIF_KNOWN_FINDINGS', os.path.join(VERIF, 'known_findings.json'))
+    try:
+        return set(f.get('id') for f in json.load(open(p)).get('findings', []))
+    except Exception:
+        return set()
+
+
+def finding_for(prog, backend):
+    """id of the recorded finding that covers failures of this (program, back-end), or None."""
+    ids = known_ids()
+    for t in sorted(prog.traits(backend)):
+        if TRAIT_FINDING[t] in ids:
+            return TRAIT_FINDING[t]
+    return None
 
 
 class Built:
@@ -32,13 +52,13 @@ class Runner:
         os.makedirs(os.path.join(VERIF, 'out', 'replay'), exist_ok=True)
         b = self.b
         self.inc = ['-I%s/parsec/include' % b, '-I%s' % b, '-I%s/parsec/include' % REPO, '-I%s' % REPO, '-I%s/parsec' % REPO, '-I' + RT, '-I.']
-        self.cf = ['-std=gnu11', '-O0', '-g', '-mcx16', '-w', '-D_GNU_SOURCE', '-DPARSEC_VERIF_HOOKS']
+        self.cf = ['-std=gnu11', '-O0', '-mcx16', '-w', '-D_GNU_SOURCE', '-DPARSEC_VERIF_HOOKS']
         self.ld = ['-L%s/parsec' % b, '-Wl,-rpath,%s/parsec' % b, '-lparsec', '-L%s/.build/vtsan' % VERIF, '-Wl,-rpath,%s/.build/vtsan' % VERIF, '-lvtsan',
                    '-lpthread', '-lm', '-ldl', '-lhwloc']
         self.ptgpp = os.path.join(b, 'parsec/interfaces/ptg/ptg-compiler/parsec-ptgpp')
         self.outcomes = {}
         self.notes = []
-        self.hang_limit = 15.0
+        self.hang_limit = 10.0
 
     def _sh(self, cmd, cwd, what):
         r = subprocess.run(cmd, cwd=cwd, capture_output=True, text=True)
@@ -47,55 +67,77 @@ class Runner:
         return r
 
     def build_all(self, progs, backends=('ht', 'ia'), extra_ptgpp=()):
-        """-> {name: Built}. Raises vlib.Broken-compatible RuntimeError on compile problems of VALID programs."""
+        """-> {backend: exe} ; one executable per dependency back-end holding ALL programs (one TU per program,
+        compiled in parallel) + registry + driver. self.built[name] = Built(prog, refs)."""
         drv = os.path.join(self.work, 'ptg_driver.o')
-        self._sh(['gcc'] + self.cf + ['-O1'] + self.inc + ['-c', os.path.join(RT, 'ptg_driver.c'), '-o', drv], self.work, 'driver compile')
-        built = {}
-        jobs = []
+        jobs = [('drv', None, None)]
+        self.built = {}
         for p in progs:
             refs = [p.interpret(v) for v in p.variants]       # Invalid propagates: the family must only hold valid programs
-            B = Built(p, refs); built[p.name] = B
+            self.built[p.name] = Built(p, refs)
             d = os.path.join(self.work, p.name); os.makedirs(d, exist_ok=True)
             open(os.path.join(d, p.name + '.jdf'), 'w').write(p.jdf())
             open(os.path.join(d, 'exp.c'), 'w').write(ptgir.emit_c(p, refs))
             for be in backends:
-                jobs.append((p, be, d))
+                if be in p.backends:
+                    jobs.append((p, be, d))
 
         def one(job):
             p, be, d = job
-            # ptgpp writes <name>.h for both back-ends (identical); generate into per-backend sub directory to avoid races
+            if p == 'drv':
+                self._sh(['gcc'] + self.cf + ['-O1'] + self.inc + ['-c', os.path.join(RT, 'ptg_driver.c'), '-o', drv], self.work, 'driver compile')
+                return None
+            # ptgpp writes <name>.h for both back-ends: generate into a per-backend sub directory
             sd = os.path.join(d, be); os.makedirs(sd, exist_ok=True)
             shutil.copy(os.path.join(d, p.name + '.jdf'), sd)
             self._sh([self.ptgpp, '-E', '-M', BACKENDS[be]] + list(extra_ptgpp) + ['-i', p.name + '.jdf', '-o', p.name, '-f', p.name], sd, 'ptgpp')
-            self._sh(['gcc'] + self.cf + self.inc + ['-c', p.name + '.c', '-o', 'gen.o'], sd, 'cc generated')
-            self._sh(['gcc'] + self.cf + self.inc + ['-c', '../exp.c', '-o', 'exp.o'], sd, 'cc table')
-            exe = os.path.join(VERIF, 'out', 'bin', '%s-ptg-%s-%s' % (self.ctx.pid, p.name, be))
-            self._sh(['gcc', 'gen.o', 'exp.o', drv, '-o', exe] + self.ld, sd, 'link')
-            return p.name, be, exe
+            open(os.path.join(sd, 'all.c'), 'w').write('#include "%s.c"\n#include "../exp.c"\n' % p.name)
+            self._sh(['gcc'] + self.cf + self.inc + ['-c', 'all.c', '-o', 'gen.o'], sd, 'cc generated')
+            return be, os.path.join(sd, 'gen.o'), p.name
+        objs = {be: [] for be in backends}
         with ThreadPoolExecutor(NJOBS) as ex:
-            for name, be, exe in ex.map(one, jobs):
-                built[name].exe[be] = exe
-        return built
+            for r in ex.map(one, jobs):
+                if r:
+                    objs[r[0]].append((r[2], r[1]))
+        exes = {}
+        for be in backends:
+            names = [n for n, _ in objs[be]]
+            reg = os.path.join(self.work, 'registry_%s.c' % be)
+            open(reg, 'w').write('#include "ptg_exp.h"\n' + ''.join('extern const ptg_program_t ptg_program_%s;\n' % n for n in names) +
+                                 'const ptg_program_t *ptg_programs[] = { %s NULL };\n' % ''.join('&ptg_program_%s, ' % n for n in names))
+            exe = os.path.join(VERIF, 'out', 'bin', '%s-ptg-%s' % (self.ctx.pid, be))
+            self._sh(['gcc'] + self.cf + self.inc + [reg] + [o for _, o in objs[be]] + [drv, '-o', exe] + self.ld, self.work, 'link')
+            exes[be] = exe
+        self.exes = exes
+        return exes
 
     # ------------------------------------------------------------------ running
     def run_jobs(self, jobs, leg, stop_on_violation=True):
         """jobs: [dict(exe=, args=[...], label=, timeout=)] ; aggregates into ONE evidence leg named `leg`."""
         ctx = self.ctx
+        if ctx.violations and stop_on_violation:
+            ctx.notes.append('leg %s skipped: a violation was already found' % leg)
+            return None
         agg = dict(name=leg, states=0, transitions=0, executions=0, nontrivial=0, distinct_outcomes=0, exhaustive=True, samples=[], processes=0, configs=0)
         hashes = {}
         stop = [False]
+        nhang = [0]
 
         def one(j):
             if stop[0]:
                 return j, None, None, 'skipped'
             js = os.path.join(self.work, 'res-%s.json' % j['label'])
             try:
-                r = subprocess.run([j['exe']] + j['args'] + ['--json', js, '--prop', ctx.pid, '--outdir', os.path.join(VERIF, 'out'), '--limit', str(self.hang_limit)],
+                r = subprocess.run([j['exe']] + j['args'] + ['--json', js, '--prop', ctx.pid, '--outdir', os.path.join(VERIF, 'out'), '--limit', str(j.get('limit', self.hang_limit))],
                                    capture_output=True, text=True, timeout=j.get('timeout', 900))
             except subprocess.TimeoutExpired:
                 return j, None, None, 'timeout'
-            if r.returncode == 1 and stop_on_violation:
+            if r.returncode == 1 and stop_on_violation and not j.get('known'):
                 stop[0] = True
+            if r.returncode == 4 and stop_on_violation and not j.get('known'):
+                nhang[0] += 1
+                if nhang[0] >= 3:
+                    stop[0] = True
             return j, r, js, None
         t0 = time.time()
         with ThreadPoolExecutor(NJOBS) as ex:
@@ -108,13 +150,16 @@ class Runner:
                 ctx.broken.append('%s: driver process timed out' % j['label']); continue
             agg['processes'] += 1
             rc = r.returncode
+            if rc == 4 and ctx.violations and not j.get('known'):
+                agg['exhaustive'] = False          # a violation is already confirmed: do not spend minutes confirming more hangs
+                continue
             if rc == 4:
                 # suspected hang: re-run that configuration alone with 4x the limit
                 line = [l for l in r.stdout.splitlines() if l.startswith('HANG ')]
                 rp = line[0].split('replay=', 1)[1].split()[0] if line else ''
-                r2 = subprocess.run([j['exe'], '--replay', rp, '--limit', str(4 * self.hang_limit), '--outdir', os.path.join(VERIF, 'out')], capture_output=True, text=True)
+                r2 = subprocess.run([j['exe'], '--replay', rp, '--limit', str(4 * j.get('limit', self.hang_limit)), '--outdir', os.path.join(VERIF, 'out')], capture_output=True, text=True)
                 if r2.returncode == 1:
-                    self._violations(r2.stdout, j['label'])
+                    self._violations(r2.stdout, j)
                 elif r2.returncode == 0:
                     self.notes.append('%s: a run exceeded %.0fs once, passed when re-run alone with 4x the limit' % (j['label'], self.hang_limit))
                     agg['exhaustive'] = False
@@ -122,37 +167,47 @@ class Runner:
                     ctx.broken.append('%s: hang re-run exited %d: %s' % (j['label'], r2.returncode, r2.stderr[-500:]))
                 continue
             if rc == 1:
-                self._violations(r.stdout, j['label'])
+                self._violations(r.stdout, j)
             elif rc != 0:
                 ctx.broken.append('%s: exit status %d\n%s' % (j['label'], rc, (r.stdout[-600:] + r.stderr[-1500:])))
                 continue
-            try:
-                res = json.load(open(js))
-            except Exception as e:
-                if rc == 0:
-                    ctx.broken.append('%s: unreadable result (%s)' % (j['label'], e))
-                continue
-            agg['configs'] += res.get('configs', 0)
-            key = res['program']
-            hashes.setdefault(key, set()).update(res.get('outcome_hashes', []))
-            for sc in res['scenarios']:
-                for k in ('states', 'transitions', 'executions', 'nontrivial'):
-                    agg[k] += int(sc.get(k, 0))
-                agg['exhaustive'] = agg['exhaustive'] and bool(sc.get('exhaustive'))
-                if len(agg['samples']) < 6:
-                    agg['samples'] += sc.get('samples', [])[:1]
+            files = [js] if os.path.exists(js) else sorted(glob.glob(js + '.*'))
+            if not files and rc == 0:
+                ctx.broken.append('%s: no result file' % j['label'])
+            for jf in files:
+                try:
+                    res = json.load(open(jf))
+                except Exception as e:
+                    if rc == 0:
+                        ctx.broken.append('%s: unreadable result (%s)' % (j['label'], e))
+                    continue
+                agg['configs'] += res.get('configs', 0)
+                for k in ('full_explorations', 'bounded_explorations', 'multi_thread_runs'):
+                    agg[k] = agg.get(k, 0) + res.get(k, 0)
+                hashes.setdefault(j.get('hkey', 'all'), set()).update(res.get('outcome_hashes', []))
+                for sc in res['scenarios']:
+                    for k in ('states', 'transitions', 'executions', 'nontrivial'):
+                        agg[k] += int(sc.get(k, 0))
+                    agg['exhaustive'] = agg['exhaustive'] and bool(sc.get('exhaustive'))
+                    if len(agg['samples']) < 8 and (len(agg['samples']) < 3 or agg['processes'] % 5 == 0):
+                        agg['samples'] += sc.get('samples', [])[:1]
         agg['distinct_outcomes'] = sum(len(s) for s in hashes.values())
         agg['wall_s'] = round(time.time() - t0, 1)
         agg['engine'] = 'rt'
         ctx.add_leg(**agg)
         return agg
 
-    def _violations(self, out, label):
+    def _violations(self, out, j):
         ctx = self.ctx
+        label = j['label']
         lines = out.splitlines()
         for i, line in enumerate(lines):
             if line.startswith('VIOLATION '):
                 rp = line.split('replay=', 1)[1].strip() if 'replay=' in line else ''
+                detail = ' '.join(l2.strip() for l2 in lines[i + 1:i + 2] if l2.startswith('  '))
+                if j.get('known'):
+                    ctx.known_finding('%s %s replay=%s' % (j['known'], detail[:300], rp))
+                    continue
                 ctx.violations.append((rp, label))
                 print(line)
                 for l2 in lines[i + 1:i + 3]:
@@ -166,7 +221,6 @@ def replay(ctx, path, obj, family):
     if not progs:
         sys.stderr.write('replay: unknown program %s\n' % obj['program']); return 2
     R = Runner(ctx)
-    built = R.build_all(progs, backends=(obj['backend'],))
-    exe = built[obj['program']].exe[obj['backend']]
+    exe = R.build_all(progs, backends=(obj['backend'],))[obj['backend']]
     r = subprocess.run([exe, '--replay', path, '--outdir', os.path.join(VERIF, 'out'), '--limit', str(4 * R.hang_limit), '-v'])
     return r.returncode if r.returncode in (0, 1) else 2
